@@ -30,6 +30,16 @@ CHECKS = {
         note="integral-domain rewriting (r prime), Schwartz-Zippel over the separation challenge, "
              "bounded-quotient LIA encoding; satisfiability direction only at the honest witness of 2^w-1",
         tech="constraint extraction from the real composer + symbolic row semantics + SMT (z3 LIA/NIA)"),
+    "C11": dict(
+        cat="other", ref="§5 C11",
+        text="Bounded solver verdict per width: gates extracted from the real component_truncate / "
+             "component_decomposition; z3 shows rows => returned value = x mod 2^N (truncate) and rows => bits "
+             "boolean and x = sum bit_i 2^i over the integers (decomposition, N<=254) for ALL values of the input "
+             "and of every internal wire. N=255/256 decomposition aliases are a recorded known finding.",
+        note="range-check sub-blocks are replaced by value<2^k summaries that are re-proven in the same run; "
+             "solver-checked bound lemmas; uniqueness of binary expansion is cited (re-decided for N<=8); "
+             "'satisfiable for every input' only at honest witnesses of boundary inputs",
+        tech="constraint extraction from the real composer + symbolic row semantics + SMT (z3 LIA/NIA)"),
 }
 
 NOT_APPLICABLE = {
